@@ -87,7 +87,9 @@ where
 
     let domain_offset = E::inv(domain_offset.into());
     let inv_len = E::inv((values.len() as u32).into());
-    let batch_size = values.len() / rayon::current_num_threads().next_power_of_two();
+    // a batch has at least one element (par_chunks_mut panics on a zero chunk size)
+    let batch_size =
+        core::cmp::max(values.len() / rayon::current_num_threads().next_power_of_two(), 1);
 
     values.par_chunks_mut(batch_size).enumerate().for_each(|(i, batch)| {
         let mut offset = domain_offset.exp(((i * batch_size) as u64).into()) * inv_len;
